@@ -138,8 +138,9 @@ def build_envs(spec, cats):
     rds = sorted({op['rd'] for cl in spec['clients'] for op in cl if 'rd' in op})
     shared_env.prebuild_renderers(rds)
     envs = []
+    single = len(spec['clients']) == 1 or spec['cat_mode'] == 'client'
     for cl in spec['clients']:
-        env = O.Env(cats, spec['cat_mode'], spec['rnd_mode'], spec.get('meta_share', False), shared=shared_env)
+        env = O.Env(cats, spec['cat_mode'], spec['rnd_mode'], spec.get('meta_share', False), shared=shared_env, edits_in_place=single)
         env.prebuild_renderers(rds)
         envs.append(env)
     return shared_env, envs
